@@ -215,7 +215,7 @@ CHECKS = {
              "final end, and a vBucket ending twice in one history",
         assumptions=HIST_ASSUME + ["ends injected inside Close are outside the property's domain and not generated",
                                    "a server does not send two final ends for one stream (each final end is the last event of that vBucket)"],
-        units=[rapid("TestC12_History", 4000, 200000, 16, 16), rapid("TestC12_Finite", 1500, 60000)],
+        units=[rapid("TestC12_History", 4000, 200000, 16, 16), rapid("TestC12_Finite", 1500, 60000), plain("TestC12_StaleToken")],
         min_share=dict(any={"end_transient_after_events": ["histories", 0.3], "client_stopped": ["histories", 0.03], "vb_ended_twice": ["histories", 0.2]}),
     ),
     "C14": dict(
